@@ -151,8 +151,10 @@ pub fn tamper_proof(
         "add_round" => {
             let l = env::free_point(&format!("xl_{}", idx)).compress();
             let r = env::free_point(&format!("xr_{}", idx)).compress();
-            bytes.extend_from_slice(l.as_bytes());
-            bytes.extend_from_slice(r.as_bytes());
+            for _ in 0..spec["count"].as_u64().unwrap_or(1) {
+                bytes.extend_from_slice(l.as_bytes());
+                bytes.extend_from_slice(r.as_bytes());
+            }
         },
         _ => panic!("unknown tamper op {}", op),
     }
